@@ -1,9 +1,8 @@
 \* seeded fault fault_first_reset_on_chunk: TLC must reject this configuration (teeth of the model)
-\* (7 shapes, 343 change sets; resets: 0..2 items per type), EVERY threshold 0..total size;
-\* sizes: header 2, separator 2, footer 1, origin 1, router key 2, ASPA 3, comma 1.
+* bound: per payload type at most one item (announced or withdrawn), every threshold
 SPECIFICATION Spec
 CONSTANTS
-  Shapes <- ShapesQuick
+  Shapes <- ShapesTiny
   Modes = {"delta", "reset"}
   SzHdr = 2
   SzSep = 2
